@@ -28,7 +28,9 @@ TNext ==
   /\ l <= Len(Rec)
   /\ l' = l + 1
   /\ LET e == Rec[l] IN
-       IF e.ev = "start" THEN Start(e.session) /\ skip' = FALSE
+       \* a new case begins whatever state the previous one was left in (it may have been refused half way)
+       IF e.ev = "start" THEN /\ phase' = "idle" /\ diags' = 0 /\ executed' = FALSE /\ defs' = {} /\ session' = e.session
+                              /\ skip' = FALSE
        ELSE IF skip THEN UNCHANGED <<fvars, skip>>
        ELSE IF ENABLED Step(e) THEN Step(e) /\ skip' = FALSE
        ELSE /\ PrintT("REJECT " \o ToJson([l |-> l, case |-> e.case, ev |-> e.ev, phase |-> phase, diags |-> diags,
